@@ -196,7 +196,9 @@ def pytask_collect_file_protocol(
             session=session, path=path, reports=reports
         )
         flat_reports = list(itertools.chain.from_iterable(new_reports))
-    except Exception:  # noqa: BLE001
+    except (Exception, SystemExit):  # noqa: BLE001
+        # A task module calling ``sys.exit()`` while it is imported fails to be collected
+        # like any other broken module instead of escaping from the build.
         name = shorten_path(path, session.config["paths"])
         node = PathNode(name=name, path=path)
         flat_reports = [
